@@ -1,0 +1,29 @@
+//go:build verif
+
+package types
+
+// Contracts for govc (see /verif/DESIGN.md). Comment-only file; compiled only under -tags verif.
+
+//@ spec psumS(s []Signal, lo int, hi int) Int = hi <= lo ? 0 : psumS(s, lo, hi-1) + s[hi-1].Power
+
+// C07: SumPower is the int64 (wrapping) sum; it equals the mathematical sum whenever that fits.
+// The property-level clause "vote <= power as a mathematical sum" lives on LockVoterPower.
+//@ func SumPower
+//@ ensures sum == wrap64(psumS(signals, 0, len(signals)))
+//@ loop 0: invariant sum == wrap64(psumS(signals, 0, #i))
+
+// C07: interval formula.
+//@ func CalculateInterval
+//@ requires powerStep > 0 && minInterval > 0 && maxInterval > 0
+//@ ensures  power <  powerStep ==> interval == 0
+//@ ensures  power >= powerStep ==> interval == max(maxInterval / (power / powerStep), minInterval)
+//@ ensures  power >= powerStep ==> interval >= minInterval && interval <= max(maxInterval, minInterval)
+
+//@ func CalculateDeviation
+//@ requires powerStep > 0 && minDeviationBP > 0 && maxDeviationBP > 0
+//@ ensures  power <  powerStep ==> deviation == 0
+//@ ensures  power >= powerStep ==> deviation == max(maxDeviationBP / (power / powerStep), minDeviationBP)
+
+// C07: a valid signal has a non-empty bounded id and positive power.
+//@ func (s *Signal) Validate
+//@ ensures err == nil <==> (len(s.ID) > 0 && s.Power > 0 && len(s.ID) <= MaxSignalIDCharacters)
